@@ -160,7 +160,7 @@ theorem ls_exactly_once (threads : List (List Op)) (hfx : allFixed threads) (sch
     rw [hfx ops ho op hop] at h
     cases h
   have h1 := ls_conservation threads sched d r
-  have h2 := (router_inv true false true true LsNoLossB threads (anyPurge threads) hq (anyNew threads) (anyUnl threads) (by intro d; simp) (LsNoLossB_blk true true) sched d).2.2.2
+  have h2 := (router_inv true false true true LsNoLossB threads (anyPurge threads) hq (anyNew threads) (anyUnl threads) (by intro d; simp) (LsNoLossB_blk true true) sched d).2.2
   simp only [final] at *
   rw [h2] at h1
   simpa using h1
@@ -227,19 +227,29 @@ theorem ls_exactly_once_witness :
 example : (final [[.guc 1 1 9 true, .purge 9, .guc 2 2 9 true]] (List.replicate 80 0)).lsBuf 9 = [1, 2] := by decide +kernel
 
 /-- what the retransmit-counter test of the registration section buys (`source_ls_guard`): WITHOUT it
-(`gucNoCounter`: in-progress iff the LocTE exists and is flagged) request 1 is lost although no purge of a flagged
-placeholder ever happens – thread 0 is pre-empted between `ensure_entry` and `ls_pending = True`, thread 1's
-refresh_table drops the still unflagged placeholder, thread 0 flags the orphan and buffers request 1, thread 2 finds no
-LocTE, starts a second lookup and overwrites the buffer -/
+(`gucNoCounter`: in-progress iff the LocTE exists and is flagged) a request is lost, sequentially, although the
+placeholder is created and flagged atomically and a flagged placeholder is never purged: request 1 starts a lookup for
+destination 9; a beacon of station 9 itself gives the entry a position vector; that vector ages out and refresh_table
+drops the entry (`exp = [9]`) while the lookup is still running; request 2 finds no LocTE, starts a second lookup and
+overwrites the buffer -/
 theorem ls_exactly_once_counter_witness :
-    (run (mkSys ({} : St) [gucNoCounter 1 1 9, compile (.refresh []), gucNoCounter 2 2 9])
-      (List.replicate 13 0 ++ List.replicate 5 1 ++ List.replicate 40 0 ++ List.replicate 40 2)).sh.lsLost 9 = [1] := by
+    (run (mkSys ({} : St)
+      [gucNoCounter 1 1 9 ++ compile (.shbRx 5 9 true []) ++ compile (.refresh [9]) ++ gucNoCounter 2 2 9])
+      (List.replicate 120 0)).sh.lsLost 9 = [1] := by
   decide +kernel
 
-/-- the same threads and schedule on the code as it is: both requests wait behind the ONE lookup -/
+/-- the same history on the code as it is: both requests wait behind the ONE lookup -/
 example :
-    (final [[.guc 1 1 9 true], [.refresh []], [.guc 2 2 9 true]]
-      (List.replicate 13 0 ++ List.replicate 5 1 ++ List.replicate 40 0 ++ List.replicate 40 2)).lsBuf 9 = [1, 2] := by
+    (final [[.guc 1 1 9 true, .shbRx 5 9 true [], .refresh [9], .guc 2 2 9 true]] (List.replicate 120 0)).lsBuf 9 = [1, 2] := by
+  decide +kernel
+
+/-- the placeholder LocTE is created AND flagged in one `loc_t_lock` block (`lsEnsure`, repair C01-F4): a refresh_table
+that runs between that block and the rest of the registration (thread 1, between steps 13 and 14 of thread 0) keeps it,
+and a third thread's request queues behind the lookup -/
+example :
+    let s := final [[.guc 1 1 9 true], [.refresh []], [.guc 2 2 9 true]]
+      (List.replicate 13 0 ++ List.replicate 5 1 ++ List.replicate 40 0 ++ List.replicate 40 2)
+    s.lsBuf 9 = [1, 2] ∧ s.loct 9 = true ∧ s.pending 9 = true := by
   decide +kernel
 
 /-- the window between sending the LS request and storing its timer: a reply handled in that window leaves a live,
@@ -443,8 +453,24 @@ theorem source_single_publication :
 its placeholder LocTE is not in the table) -/
 theorem source_ls_guard :
     ((Generated.Locks.blocks .Router_gn_ls_request).head?.map fun b =>
-      b.1 == [.Router__ls_lock] && b.2.contains (.Router__ls_retransmit_counters, .read) &&
-        b.2.contains (.Router__ls_retransmit_counters, .write)) = some true := ls_request_checks_counter
+      b.1 == [.Router__ls_lock] && b.2.contains (.Router__ls_retransmit_counters, .read)) = some true ∧
+    ((Generated.Locks.blocks .Router_gn_ls_request).any fun b =>
+      b.1 == [.Router__ls_lock] && b.2.contains (.Router__ls_retransmit_counters, .write)) = true :=
+  ls_request_checks_counter
+
+/-- gn_ls_request creates (or fetches) the placeholder LocTE and stores its `ls_pending` flag inside ONE `loc_t_lock`
+section nested in the `_ls_lock` section, in both branches (`lsEnsure` is one block for every `loc_t_lock` holder) -/
+theorem source_ls_placeholder :
+    Generated.Locks.shape .Router_gn_ls_request =
+      [([.Router__ls_lock], [.Router__ls_retransmit_counters]),
+       ([.Router__ls_lock, .LocationTable_loc_t_lock], [.ext_ls_pending]),
+       ([.Router__ls_lock], [.Router__ls_packet_buffers]),
+       ([.Router__ls_lock, .LocationTable_loc_t_lock], [.ext_ls_pending]),
+       ([.Router__ls_lock], [.Router__ls_packet_buffers, .Router__ls_retransmit_counters]),
+       ([.Router__ls_lock], [.Router__ls_timers])] ∧
+    ((Generated.Locks.calls .Router_gn_ls_request).filter fun c => c.2 == .LocationTable_ensure_entry) =
+      [([.Router__ls_lock, .LocationTable_loc_t_lock], .LocationTable_ensure_entry),
+       ([.Router__ls_lock, .LocationTable_loc_t_lock], .LocationTable_ensure_entry)] := blocks_ls_request
 
 /-- the LocTE life cycle: refresh_table / get_neighbours / get_entry / ensure_entry are single `loc_t_lock` sections and
 the seven `new_*_packet` functions have the section shape `rxProg` assumes (see `RouterConc.blocks_new_packet`) -/
